@@ -77,6 +77,7 @@ class Result:
         self.validated_vectors = 0
         self.vcc = 0
         self.cross_status = None
+        self.san_reports = []
 
 
 def sh(cmd, cwd=None, timeout=None, env=None, mem_gb=None, inp=None):
@@ -255,6 +256,29 @@ def native_ir_binary(q, wd):
     return exe, ""
 
 
+def native_ir_san_binary(q, wd):
+    """same as native_ir_binary with ASan+UBSan: confirms CBMC's built-in memory-safety / arithmetic checks"""
+    exe = os.path.join(wd, "replay_ir_san")
+    if os.path.exists(exe):
+        return exe, ""
+    rc, o, e, to, dt, _ = sh(["clang++-14", "-O1", "-w", "-fsanitize=address,undefined", "-fno-sanitize-recover=undefined", "-x", "ir",
+                              os.path.join(wd, "out.c.ll"), "-x", "c", "-DLL2C_IR_NATIVE", f"-DENTRY={q.entry}",
+                              os.path.join(VERIF, "tools", "rt_native.c"), "-o", exe, "-lm"], timeout=600)
+    if rc != 0:
+        return None, e[-2000:]
+    return exe, ""
+
+
+def run_native_san(exe, inputs, wd):
+    f = os.path.join(wd, "in_san.txt")
+    with open(f, "w") as fh:
+        fh.write("\n".join(hex(x) for x in inputs) + "\n")
+    env = dict(os.environ, LL2C_INPUT=f, ASAN_OPTIONS="detect_leaks=0:abort_on_error=0", UBSAN_OPTIONS="print_stacktrace=0")
+    rc, o, e, to, dt, _ = sh([exe], timeout=120, env=env)
+    m = re.search(r"(ERROR: AddressSanitizer: [^\n]*|runtime error: [^\n]*)", e)
+    return m.group(1)[:200] if m else None
+
+
 def native_c_binary(q, wd):
     exe = os.path.join(wd, "replay_c")
     if os.path.exists(exe):
@@ -332,6 +356,7 @@ def run_query(q, wd, bcdir, tier, seed, known):
     incremental = q.backend in ("minisat", "cadical") and not q.paths
     runs = [(True, False)] if incremental else [(False, False), (True, False)]
     failed = []
+    undecided = []
     wit = False
     for witness, trace in runs:
         cmd, env = cbmc_cmd(q, cfile, witness, trace)
@@ -364,12 +389,14 @@ def run_query(q, wd, bcdir, tier, seed, known):
                     failed.append((name, desc))
             elif status not in ("SUCCESS",):
                 if desc != WITNESS_LABEL:
-                    r.status, r.detail = "error", f"property {name} status {status}"
-                    return r
+                    undecided.append((name, status))
         if q.paths and st == "failure" and not res:
             failed.append(("?", "?"))
     r.witness = wit
     failed = sorted(set(failed))
+    if undecided and not failed:  # (CBMC reports UNKNOWN for checks that come after a failed one: only an error when nothing failed)
+        r.status, r.detail = "error", f"property {undecided[0][0]} status {undecided[0][1]}"
+        return r
     nobody = [d for n, d in failed if d.startswith("no body: ")]
     if nobody:
         r.status, r.detail = "error", "the real code reaches a function that has neither body nor stub (signature changed?): " + "; ".join(sorted(set(nobody))[:5])
@@ -417,6 +444,7 @@ def run_query(q, wd, bcdir, tier, seed, known):
                 traces[desc] = inputs_from_trace(tr)
     exe, e2 = native_ir_binary(q, wd)
     confirmed, unconf = [], []
+    harness_labels = set(re.findall(r'__CPROVER_assert\([^;]*?, "([^"]*)"\)', open(cfile).read()))
     for desc in r.failed_labels:
         inp = traces.get(desc)
         if inp is None or exe is None:
@@ -426,8 +454,15 @@ def run_query(q, wd, bcdir, tier, seed, known):
         hit = any(l == "A FAIL " + desc for l in lines)
         if hit:
             confirmed.append((desc, inp))
-        else:
-            unconf.append(desc)
+            continue
+        if desc not in harness_labels:  # a built-in check of CBMC (bounds, dereference, division by zero, overflow ...): ask the sanitizers
+            sexe, e3 = native_ir_san_binary(q, wd)
+            rep = run_native_san(sexe, inp, wd) if sexe else None
+            if rep:
+                confirmed.append((desc, inp))
+                r.san_reports.append(rep)
+                continue
+        unconf.append(desc)
     r.confirmed = confirmed
     if confirmed:
         allknown = all(known(q, d) for d, _ in confirmed)
@@ -438,7 +473,7 @@ def run_query(q, wd, bcdir, tier, seed, known):
         json.dump({"query": q.name, "harness": q.harness, "entry": q.entry, "defs": q.defs, "sources": q.sources,
                    "keep_ctors": q.keep_ctors, "label": desc, "inputs": [hex(x) for x in inp]}, open(r.replay_file, "w"), indent=1)
         r.status = "known" if allknown else "violation"
-        r.detail = "; ".join(d for d, _ in confirmed)
+        r.detail = "; ".join(d for d, _ in confirmed) + ("  [sanitizer: " + "; ".join(r.san_reports[:2]) + "]" if r.san_reports else "")
     else:
         r.status = "unconfirmed"
         r.detail = "CBMC counterexample did not reproduce on the natively compiled code: " + "; ".join(unconf)
